@@ -84,6 +84,7 @@ fn main() {
     let mut only: Option<u64> = None;
     let mut small = false;
     let mut hang_s = 60u64;
+    let mut skip_ops: Vec<String> = vec![];
     let mut i = 2;
     while i < args.len() {
         let a = args[i].as_str();
@@ -102,6 +103,7 @@ fn main() {
             "--case" => only = Some(val().parse().unwrap()),
             "--small" => small = true,
             "--hang-s" => hang_s = val().parse().unwrap(),
+            "--skip-op" => skip_ops.push(val()),
             "--trace-cases" => cx::TRACE_CASES.store(true, std::sync::atomic::Ordering::Relaxed),
             _ => {
                 eprintln!("unknown arg {}", a);
@@ -113,6 +115,7 @@ fn main() {
     cx::install_panic_hook();
     let mut c = Cx::new(prop, seed, thorough, &build);
     c.small = small;
+    c.skip_ops = skip_ops;
     c.want_samples = samples;
     let t0 = Instant::now();
     // in-process hang watchdog: a single case running longer than hang_s seconds is reported
